@@ -74,85 +74,99 @@ Qed.
 
 (** * Refinement of the merge specification *)
 
-(* what a source descriptor still has to deliver: the look-ahead, then the rest *)
+(* what a source descriptor still has to deliver: the look-ahead, then the
+   items of the rest that come with ok = true *)
 Definition live (d : desc) : list Z :=
-  (if d_load d then [d_e d] else []) ++ map fst (s_rest (d_it d)).
+  (if d_load d then [d_e d] else []) ++ live_items (s_rest (d_it d)).
 
-(* the source is the list-backed iterator over [l] (every Next there is ok) *)
-Definition src_ok (l : list Z) (rs : bool) (s : src) : Prop :=
-  s_orig s = wrap_items l /\ s_rst s = rs /\ forallb snd (s_rest s) = true.
+(* the source is the list-backed iterator over [its]; only its last item may
+   be a ghost *)
+Definition src_ok (its : list (Z * bool)) (rs : bool) (s : src) : Prop :=
+  s_orig s = its /\ s_rst s = rs /\ tail_ok (s_rest s) = true.
 
 (* a decided state is the decision [merge_step] takes *)
 Definition st_ok (sf : Z -> Z -> bool) (m : mixer) (r1 r2 : list Z) : Prop :=
   match m_st m with
   | St0 => True
   | St1 => d_load (m_src1 m) = true /\
-           merge_step sf r1 r2 = Some (O1, d_e (m_src1 m), map fst (s_rest (d_it (m_src1 m))), r2)
+           merge_step sf r1 r2 = Some (O1, d_e (m_src1 m), live_items (s_rest (d_it (m_src1 m))), r2)
   | St2 => d_load (m_src2 m) = true /\
-           merge_step sf r1 r2 = Some (O2, d_e (m_src2 m), r1, map fst (s_rest (d_it (m_src2 m))))
+           merge_step sf r1 r2 = Some (O2, d_e (m_src2 m), r1, live_items (s_rest (d_it (m_src2 m))))
   | St3 => merge_step sf r1 r2 = None
   end.
 
-Definition sim (sf : Z -> Z -> bool) (rs1 rs2 : bool) (m : mixer) (s : mspec) : Prop :=
-  src_ok (sp_l1 s) rs1 (d_it (m_src1 m)) /\
-  src_ok (sp_l2 s) rs2 (d_it (m_src2 m)) /\
+Definition sim (sf : Z -> Z -> bool) (its1 its2 : list (Z * bool)) (rs1 rs2 : bool)
+               (m : mixer) (s : mspec) : Prop :=
+  src_ok its1 rs1 (d_it (m_src1 m)) /\
+  src_ok its2 rs2 (d_it (m_src2 m)) /\
+  sp_l1 s = live_items its1 /\
+  sp_l2 s = live_items its2 /\
   live (m_src1 m) = sp_r1 s /\
   live (m_src2 m) = sp_r2 s /\
   st_ok sf m (sp_r1 s) (sp_r2 s).
 
-Lemma forallb_wrap_items : forall l, forallb snd (wrap_items l) = true.
-Proof. induction l as [|x t IH]; [reflexivity | exact IH]. Qed.
-
-Lemma map_fst_wrap_items : forall l, map fst (wrap_items l) = l.
+Lemma tail_ok_wrap_items : forall l, tail_ok (wrap_items l) = true.
 Proof.
   induction l as [|x t IH]; [reflexivity|].
-  cbn [wrap_items map fst]. f_equal. exact IH.
+  cbn [wrap_items map tail_ok]. destruct t as [|y t']; [reflexivity|].
+  cbn [map snd andb]. exact IH.
 Qed.
 
-Lemma sim_init : forall sf rs1 rs2 l1 l2,
-  sim sf rs1 rs2 (mx_init (src_of (wrap_items l1) rs1) (src_of (wrap_items l2) rs2))
-      (spec_init l1 l2).
+Lemma live_items_wrap_items : forall l, live_items (wrap_items l) = l.
 Proof.
-  intros sf rs1 rs2 l1 l2. unfold sim, src_ok, live, st_ok. cbn.
-  rewrite !forallb_wrap_items, !map_fst_wrap_items. repeat split; reflexivity.
+  unfold live_items. induction l as [|x t IH]; [reflexivity|].
+  cbn [wrap_items map filter snd fst]. f_equal. exact IH.
+Qed.
+
+Lemma sim_init : forall sf its1 its2 rs1 rs2,
+  tail_ok its1 = true -> tail_ok its2 = true ->
+  sim sf its1 its2 rs1 rs2 (mx_init (src_of its1 rs1) (src_of its2 rs2))
+      (spec_init (live_items its1) (live_items its2)).
+Proof.
+  intros sf its1 its2 rs1 rs2 H1 H2. unfold sim, src_ok, live, st_ok. cbn.
+  repeat split; assumption.
 Qed.
 
 Ltac break_sim :=
   match goal with
-  | H : sim _ _ _ ?m ?s |- _ =>
+  | H : sim _ _ _ _ _ ?m ?s |- _ =>
       destruct m as [[[o1 rest1 b1] ld1 e1] [[o2 rest2 b2] ld2 e2] st];
-      destruct s as [l1 l2 r1 r2];
+      destruct s as [sl1 sl2 r1 r2];
       unfold sim, src_ok, live, st_ok in H; cbn in H;
-      destruct H as ((Ho1 & Hb1 & Hk1) & (Ho2 & Hb2 & Hk2) & Hl1 & Hl2 & Hst)
+      destruct H as ((Ho1 & Hb1 & Hk1) & (Ho2 & Hb2 & Hk2) & Hs1 & Hs2 & Hl1 & Hl2 & Hst)
   end.
 
-Lemma select_state_sim : forall sf rs1 rs2 m s,
-  sim sf rs1 rs2 m s -> sim sf rs1 rs2 (select_state sf m) s.
+(* the shapes of a rest whose only possible ghost is its last item *)
+Ltac break_rest rest Hk :=
+  let v := fresh "v" in let k := fresh "k" in let t := fresh "t" in
+  destruct rest as [|[v k] [|? t]];
+  [ | destruct k | cbn in Hk; apply andb_prop in Hk; destruct Hk as [-> Hk] ].
+
+Lemma select_state_sim : forall sf its1 its2 rs1 rs2 m s,
+  sim sf its1 its2 rs1 rs2 m s -> sim sf its1 its2 rs1 rs2 (select_state sf m) s.
 Proof.
-  intros sf rs1 rs2 m s H. break_sim.
+  intros sf its1 its2 rs1 rs2 m s H. break_sim.
   destruct st; unfold sim, src_ok, live, st_ok, select_state; cbn;
     try tauto.
-  destruct ld1, ld2, rest1 as [|[v1 k1] t1], rest2 as [|[v2 k2] t2];
-    cbn in *; subst r1 r2;
-    repeat match goal with
-           | H : _ && _ = true |- _ => apply andb_prop in H; destruct H; subst
-           end; cbn;
+  break_rest rest1 Hk1; break_rest rest2 Hk2;
+    destruct ld1, ld2; unfold live_items in *; cbn in *; subst r1 r2;
     try (destruct (sf _ _) eqn:Hsf; cbn; rewrite ?Hsf);
     repeat split; try assumption; try reflexivity.
 Qed.
 
 (* one call: same result, and the relation is kept.  Reset is only covered
    when both sources can be reset (the specification's premise) *)
-Lemma step_sim : forall sf rs1 rs2 m s c,
-  sim sf rs1 rs2 m s ->
+Lemma step_sim : forall sf its1 its2 rs1 rs2 m s c,
+  tail_ok its1 = true -> tail_ok its2 = true ->
+  sim sf its1 its2 rs1 rs2 m s ->
   (c = CReset -> rs1 = true /\ rs2 = true) ->
   snd (mx_step sf m c) = snd (spec_step sf s c) /\
-  sim sf rs1 rs2 (fst (mx_step sf m c)) (fst (spec_step sf s c)).
+  sim sf its1 its2 rs1 rs2 (fst (mx_step sf m c)) (fst (spec_step sf s c)).
 Proof.
-  intros sf rs1 rs2 m s c H Hc. destruct c.
+  intros sf its1 its2 rs1 rs2 m s c Ht1 Ht2 H Hc. destruct c.
   - (* HasNext *)
     unfold mx_step, mx_has_next.
-    pose proof (select_state_sim _ _ _ _ _ H) as H'.
+    pose proof (select_state_sim _ _ _ _ _ _ _ H) as H'.
     pose proof (select_state_decided sf m) as Hd.
     clear H. cbn [fst snd]. split; [|exact H'].
     revert H' Hd. generalize (select_state sf m). intros m' H Hd.
@@ -163,7 +177,7 @@ Proof.
     + rewrite Hst. reflexivity.
   - (* Next *)
     unfold mx_step, mx_next.
-    pose proof (select_state_sim _ _ _ _ _ H) as H'.
+    pose proof (select_state_sim _ _ _ _ _ _ _ H) as H'.
     pose proof (select_state_decided sf m) as Hd.
     clear H. revert H' Hd. generalize (select_state sf m). intros m' H Hd.
     break_sim. cbn in *.
@@ -179,29 +193,42 @@ Proof.
     break_sim. subst b1 b2.
     unfold mx_step, mx_reset, desc_reset, src_reset. cbn.
     split; [reflexivity|].
-    unfold sim, src_ok, live, st_ok. cbn. subst o1 o2.
-    rewrite !forallb_wrap_items, !map_fst_wrap_items. tauto.
+    unfold sim, src_ok, live, st_ok. cbn. subst o1 o2 sl1 sl2. tauto.
 Qed.
 
-Lemma run_sim : forall sf rs1 rs2 cs m s,
-  sim sf rs1 rs2 m s ->
+Lemma run_sim : forall sf its1 its2 rs1 rs2 cs m s,
+  tail_ok its1 = true -> tail_ok its2 = true ->
+  sim sf its1 its2 rs1 rs2 m s ->
   (In CReset cs -> rs1 = true /\ rs2 = true) ->
   fst (mx_run sf m cs) = fst (spec_run sf s cs) /\
-  sim sf rs1 rs2 (snd (mx_run sf m cs)) (snd (spec_run sf s cs)).
+  sim sf its1 its2 rs1 rs2 (snd (mx_run sf m cs)) (snd (spec_run sf s cs)).
 Proof.
-  intros sf rs1 rs2 cs. induction cs as [|c t IH]; intros m s H Hr.
+  intros sf its1 its2 rs1 rs2 cs. induction cs as [|c t IH]; intros m s Ht1 Ht2 H Hr.
   - cbn. split; [reflexivity | exact H].
   - cbn [mx_run spec_run].
     assert (Hc : c = CReset -> rs1 = true /\ rs2 = true).
     { intros ->. apply Hr. left. reflexivity. }
-    destruct (step_sim sf rs1 rs2 m s c H Hc) as [Ho Hs].
+    destruct (step_sim sf its1 its2 rs1 rs2 m s c Ht1 Ht2 H Hc) as [Ho Hs].
     destruct (mx_step sf m c) as [m' o]. destruct (spec_step sf s c) as [s' o'].
     cbn [fst snd] in Ho, Hs. subst o'.
     assert (Hr' : In CReset t -> rs1 = true /\ rs2 = true).
     { intros Hin. apply Hr. right. exact Hin. }
-    destruct (IH m' s' Hs Hr') as [Ho Hf].
+    destruct (IH m' s' Ht1 Ht2 Hs Hr') as [Ho Hf].
     destruct (mx_run sf m' t) as [os mf]. destruct (spec_run sf s' t) as [os' sf'].
     cbn [fst snd] in *. subst os'. split; [reflexivity | exact Hf].
+Qed.
+
+(** the general form: list-backed sources whose only possible ghost is the
+    last item, with or without Reset (Reset calls only when both have it) *)
+Theorem mixer_refines_merge_general :
+  forall (sf : Z -> Z -> bool) (its1 its2 : list (Z * bool)) (rs1 rs2 : bool) (cs : list call),
+  tail_ok its1 = true -> tail_ok its2 = true ->
+  (In CReset cs -> rs1 = true /\ rs2 = true) ->
+  fst (mx_run sf (mx_init (src_of its1 rs1) (src_of its2 rs2)) cs) =
+  fst (spec_run sf (spec_init (live_items its1) (live_items its2)) cs).
+Proof.
+  intros sf its1 its2 rs1 rs2 cs Ht1 Ht2 Hr.
+  apply (run_sim sf its1 its2 rs1 rs2 cs _ _ Ht1 Ht2 (sim_init sf its1 its2 rs1 rs2 Ht1 Ht2) Hr).
 Qed.
 
 (** the headline refinement: WrapIntSlice sources, every selector function,
@@ -210,9 +237,12 @@ Theorem mixer_refines_merge : forall (sf : Z -> Z -> bool) (l1 l2 : list Z) (cs 
   fst (mx_run sf (mx_init (wrap_ints l1) (wrap_ints l2)) cs) =
   fst (spec_run sf (spec_init l1 l2) cs).
 Proof.
-  intros sf l1 l2 cs.
-  apply (run_sim sf true true cs _ _ (sim_init sf true true l1 l2)).
-  intros _. split; reflexivity.
+  intros sf l1 l2 cs. unfold wrap_ints.
+  rewrite mixer_refines_merge_general.
+  - rewrite !live_items_wrap_items. reflexivity.
+  - apply tail_ok_wrap_items.
+  - apply tail_ok_wrap_items.
+  - intros _. split; reflexivity.
 Qed.
 
 (** sources that cannot be reset: every pattern over HasNext / Next *)
@@ -223,6 +253,34 @@ Theorem mixer_refines_merge_noreset :
   fst (spec_run sf (spec_init l1 l2) cs).
 Proof.
   intros sf rs1 rs2 l1 l2 cs Hn.
-  apply (run_sim sf rs1 rs2 cs _ _ (sim_init sf rs1 rs2 l1 l2)).
-  intros Hin. contradiction.
+  rewrite mixer_refines_merge_general.
+  - rewrite !live_items_wrap_items. reflexivity.
+  - apply tail_ok_wrap_items.
+  - apply tail_ok_wrap_items.
+  - intros Hin. contradiction.
+Qed.
+
+(** a source whose last element vanishes between HasNext and Next (the case
+    the Iterator contract describes) *)
+Theorem mixer_refines_merge_vanishing_last :
+  forall (sf : Z -> Z -> bool) (l1 l2 : list Z) (g1 g2 : list (Z * bool)) (cs : list call),
+  (g1 = [] \/ exists v, g1 = [(v, false)]) ->
+  (g2 = [] \/ exists v, g2 = [(v, false)]) ->
+  fst (mx_run sf (mx_init (src_of (wrap_items l1 ++ g1) true) (src_of (wrap_items l2 ++ g2) true)) cs) =
+  fst (spec_run sf (spec_init l1 l2) cs).
+Proof.
+  assert (Htail : forall l g, (g = [] \/ exists v, g = [(v, false)]) ->
+            tail_ok (wrap_items l ++ g) = true /\ live_items (wrap_items l ++ g) = l).
+  { intros l g Hg. induction l as [|x t [IH1 IH2]].
+    - destruct Hg as [-> | [v ->]]; split; reflexivity.
+    - split.
+      + cbn [wrap_items map app tail_ok]. fold (wrap_items t).
+        destruct (wrap_items t ++ g) eqn:E; [reflexivity|]. cbn [snd andb]. exact IH1.
+      + unfold live_items in *. cbn [wrap_items map app filter snd fst]. fold (wrap_items t).
+        f_equal. exact IH2. }
+  intros sf l1 l2 g1 g2 cs Hg1 Hg2.
+  destruct (Htail l1 g1 Hg1) as [T1 L1]. destruct (Htail l2 g2 Hg2) as [T2 L2].
+  rewrite mixer_refines_merge_general; try assumption.
+  - rewrite L1, L2. reflexivity.
+  - intros _. split; reflexivity.
 Qed.
